@@ -65,6 +65,33 @@ func drawC17(rt *rapid.T) *Case {
 			s = g.MutateText(s)
 		}
 	}
+	if gen.Uniform(rt, "longtail", 25) == 0 {
+		// a long rest behind whatever the path was: hundreds of characters of further steps, one
+		// long quoted name, blanks, or a run of letters - position and "near" are defined for paths
+		// of any length
+		n := 90 + gen.Uniform(rt, "taillen", 400)
+		var tail string
+		switch gen.Uniform(rt, "tailkind", 5) {
+		case 0:
+			tail = strings.Repeat(".ab", n)
+		case 1:
+			tail = "['" + strings.Repeat("k", 3*n) + "']"
+		case 2:
+			tail = strings.Repeat(" ", 3*n)
+		case 3:
+			tail = strings.Repeat("[0]['é']", n/2)
+		default:
+			tail = strings.Repeat("x", 3*n)
+		}
+		switch gen.Uniform(rt, "tailjoin", 3) {
+		case 0:
+			s += "]" + tail
+		case 1:
+			s += tail + "]"
+		default:
+			s += tail
+		}
+	}
 	return &Case{Path: s, Funcs: gen.Uniform(rt, "funcs", 3) > 0, Strs: []string{fam}}
 }
 
@@ -179,6 +206,9 @@ func checkC17(c *Case, st *Stats) string {
 	st.Class("verdict:" + verdict)
 	st.Class("verdict:" + ascii + ":" + map[bool]string{true: "accepted", false: "rejected"}[ex.Accept])
 	st.Class("family:" + fam)
+	if len(c.Path) > 300 {
+		st.Class("path:longer-than-300-bytes")
+	}
 	if ex.Accept {
 		if err != nil {
 			return fmt.Sprintf("the grammar derives the whole path and no restriction is violated, but Parse rejected it: %v", err)
